@@ -178,3 +178,4 @@ reg('C19', 'ropeinv', 'rule_prefix_sum', ('dev', 'release'))   # byte_slice_unch
 reg('C06', 'streams', 'rule_prefix_direction')    # the column is advanced only where the recorded content equals the text
 reg('C17', 'bounds', 'rule_clamp_order', ('dev', 'release'))
 reg('C17', 'bounds', 'rule_slice_order', ('dev', 'release'))
+reg('C01', 'bounds', 'rule_cursor_forward')       # a cursor that moves back re-emits text: chunks no longer reassemble to source()
